@@ -246,9 +246,9 @@ static int free_port()
 struct net_world {
 	std::vector<std::unique_ptr<cppcms::impl::tcp_cache_service> > servers;
 	std::vector<booster::intrusive_ptr<base_cache> > nodes;
-	std::string desc;
-	net_world(rng &r, int max_nodes) {
-		int ns = r.range(1, 2), nn = r.range(1, max_nodes);
+	std::string desc; int ns;
+	net_world(rng &r, int max_nodes, int nservers = 0) {
+		ns = nservers ? nservers : r.range(1, 2); int nn = r.range(1, max_nodes);
 		std::vector<std::string> ips; std::vector<int> ports;
 		for (int i = 0; i < ns; i++) {
 			int port = free_port();
@@ -330,7 +330,9 @@ int main(int argc, char **argv)
 		std::unique_ptr<net_world> w;
 		for (long long hI = 0; hI < hist; hI++) {
 			// a world serves a batch of short histories; it is cleared (sequentially) between them
-			if (!w || hI % 25 == 0) { w.reset(); w.reset(new net_world(r, 3)); }
+			// rise() and clear() visit the servers one after another, so with two servers they are not atomic and only the
+			// per-operation real-time conditions (check_l1) apply; full linearizability is demanded of one-server worlds
+			if (!w || hI % 25 == 0) { w.reset(); w.reset(new net_world(r, 3, (hI / 25) % 3 == 2 ? 2 : 1)); }
 			w->nodes[0]->clear();
 			for (auto &n : w->nodes) { std::string tmp; n->fetch("a", &tmp, 0, 0); n->fetch("b", &tmp, 0, 0); }   // L1 copies are validated against the server anyway
 			int T = r.range(2, 3);
@@ -341,11 +343,12 @@ int main(int argc, char **argv)
 			std::vector<rec> h;
 			run_threads(w->nodes, plans, h);
 			check_l1(h, 0);
+			O().count("histories_net_short");
+			O().count("ops", (long long)h.size());
+			if (w->ns > 1) { O().count("histories_two_servers_realtime_conditions_only"); continue; }
 			wgl wg(h);
 			mstate st;
 			bool ok = wg.go(0, st);
-			O().count("histories_net_short");
-			O().count("ops", (long long)h.size());
 			if (wg.timeout) O().count("linearizability_inconclusive");
 			else if (!ok) O().viol("netconc:history-not-linearizable", "no sequential order consistent with real time explains the results; " + w->desc, hist_json(h));
 			else O().count("histories_linearized");
